@@ -207,7 +207,7 @@ impl Prop for C09 {
         }
     }
     fn rule(&self) -> &'static str {
-        "One case = one client request (C02 generator) proxied to one scripted upstream behaviour. Run indices walk the cut offsets of generated valid responses (39 status codes; Content-Length / chunked with random chunkings and hex case / close-delimited / body-less) so that, for every generated response in the batch, EVERY byte offset is cut once by FIN and once by RST; interleaved with the other behaviours: valid (closing and keep-alive upstreams), garbage (8 kinds), connection refused, black-holed SYN, accept-then-silence, accept-then-close, stall after k bytes, nothing for 30..90% of the timeout then a partial response then silence, one byte per 50 virtual ms; through proxy_request directly and through the server's proxy_handler (prefix stripping for the patterns /api/*, /*, /a/b/*, /api* with paths in which the literal prefix occurs once, twice or three times in a row, alone, or again further down), plus target-selection cases (1..4 targets, 1..8 threads through the real EqMutex<LoadBalancer>). Distinct = distinct (behaviour, status, framing, cut offset class, outcome); non-trivial = the upstream accepted a connection or a fault was injected."
+        "One case = one client request (C02 generator) proxied to one scripted upstream behaviour. Run indices walk the cut offsets of generated valid responses (39 status codes; Content-Length / chunked with random chunkings and hex case / close-delimited / body-less) so that, for every generated response in the batch, EVERY byte offset is cut once by FIN and once by RST; interleaved with the other behaviours: valid (closing and keep-alive upstreams), garbage (8 kinds), connection refused, black-holed SYN, accept-then-silence, accept-then-close, stall after k bytes, nothing for 30..90% of the timeout then a partial response then silence, one byte per 50 virtual ms; through proxy_request directly and through the server's proxy_handler (prefix stripping for the patterns /api/*, /*, /a/b/*, /api* with paths in which the literal prefix occurs once, twice or three times in a row, alone, or again further down), plus target-selection cases (1..4 targets; 1..8 threads selecting through the real EqMutex<LoadBalancer>, or 1..8 concurrent requests through the real proxy_handler to upstreams that answer with their index). Distinct = distinct (behaviour, status, framing, cut offset class, outcome); non-trivial = the upstream accepted a connection or a fault was injected."
     }
     fn assumptions(&self) -> Vec<String> {
         vec![
@@ -218,7 +218,7 @@ impl Prop for C09 {
         ]
     }
     fn expected_counters(&self) -> Vec<&'static str> {
-        vec!["c09.valid", "c09.cut_fin", "c09.cut_rst", "c09.garbage", "c09.refuse", "c09.blackhole", "c09.silence", "c09.accept_close", "c09.stall", "c09.late-stall", "c09.trickle", "c09.handler_mode", "c09.handler_path.prefix-repeated", "c09.handler_path.equal-prefix", "c09.handler_path.prefix-later", "c09.balance_mode", "c09.framing.chunked", "c09.framing.close", "c09.framing.cl", "c09.framing.none", "c09.keepalive_upstream", "net.connect_refused", "net.connect_blackholed", "net.rst_sent"]
+        vec!["c09.valid", "c09.cut_fin", "c09.cut_rst", "c09.garbage", "c09.refuse", "c09.blackhole", "c09.silence", "c09.accept_close", "c09.stall", "c09.late-stall", "c09.trickle", "c09.handler_mode", "c09.balance_through_handler", "c09.handler_path.prefix-repeated", "c09.handler_path.equal-prefix", "c09.handler_path.prefix-later", "c09.balance_mode", "c09.framing.chunked", "c09.framing.close", "c09.framing.cl", "c09.framing.none", "c09.keepalive_upstream", "net.connect_refused", "net.connect_blackholed", "net.rst_sent"]
     }
     fn real_vs_stub(&self) -> (Vec<&'static str>, Vec<&'static str>) {
         (vec!["humphrey::http::proxy::proxy_request", "Response::from_stream + parse_chunk", "From<Request> for Vec<u8>", "humphrey_server::proxy::{proxy_handler, LoadBalancer::select_target, EqMutex}", "Lcg"], vec!["TcpStream / connect_timeout / timeouts (humsim::net)", "Instant/SystemTime (virtual)", "the upstream is a scripted reference server"])
@@ -495,6 +495,79 @@ impl C09 {
         rr.count("c09.balance_mode", 1);
         let n = scn.targets.clamp(1, 4);
         let targets: Vec<String> = (0..n).map(|i| format!("10.1.0.{}:9000", i + 1)).collect();
+        // Half of the round-robin cases go through the real proxy_handler: K concurrent requests,
+        // every target a tiny upstream that answers with its own index.  Whatever the order, strict
+        // rotation from index 0 means that after K selections target j was chosen once for every
+        // position p < K with p mod n == j.
+        if !scn.lb_random && scn.picks % 2 == 0 {
+            rr.count("c09.balance_through_handler", 1);
+            let k = scn.threads.clamp(1, 8);
+            let answers: Arc<Mutex<Vec<String>>> = Arc::new(Mutex::new(Vec::new()));
+            let (a2, t2, sim_cfg) = (answers.clone(), targets.clone(), scn.sim.to_config());
+            let outcome = sim::run(sim_cfg, move || {
+                for (j, t) in t2.iter().enumerate() {
+                    let l = TcpListener::bind(t.parse::<SocketAddr>().expect("target address")).expect("bind upstream");
+                    humsim::thread::spawn(move || {
+                        while let Ok((mut s, _)) = l.accept() {
+                            humsim::thread::spawn(move || {
+                                let mut log = crate::simhttp::RecvLog::new();
+                                while !log.bytes.windows(4).any(|w| w == b"\r\n\r\n") && !log.ended() {
+                                    if !crate::simhttp::read_some(&mut s, &mut log, Duration::from_secs(5)) {
+                                        break;
+                                    }
+                                }
+                                let body = format!("t{}", j);
+                                let _ = crate::simhttp::write_all(&mut s, format!("HTTP/1.1 200 OK\r\nContent-Length: {}\r\n\r\n{}", body.len(), body).as_bytes());
+                            });
+                        }
+                    });
+                }
+                let mut cfg = Config::default();
+                cfg.logging.console = false;
+                let state = Arc::new(AppState::from(cfg));
+                let lb = Arc::new(EqMutex::new(LoadBalancer { targets: t2.clone(), mode: LoadBalancerMode::RoundRobin, index: 0, lcg: Lcg::new() }));
+                let mut hs = Vec::new();
+                for c in 0..k {
+                    let (state, lb, a) = (state.clone(), lb.clone(), a2.clone());
+                    hs.push(humsim::thread::spawn(move || {
+                        let bytes = format!("GET /x{} HTTP/1.1\r\nHost: a\r\n\r\n", c).into_bytes();
+                        let req = match Request::from_stream(&mut &bytes[..], "10.9.9.9:5555".parse().unwrap()) {
+                            Ok(r) => r,
+                            Err(_) => return,
+                        };
+                        let resp = proxy_handler(req, state, &lb, "/*");
+                        a.lock().unwrap().push(format!("{} {}", u16::from(resp.status_code), String::from_utf8_lossy(&resp.body)));
+                    }));
+                }
+                for h in hs {
+                    let _ = h.join();
+                }
+            });
+            rr.absorb(&outcome);
+            if outcome.status != sim::EndStatus::Completed || outcome.panics.iter().any(|p| p.thread != "driver") {
+                let p: Vec<String> = outcome.panics.iter().map(|p| format!("{} at {}", p.message, p.location)).collect();
+                rr.violate("C09/R6", "target-selection-failed", format!("{:?} {:?}", outcome.status, p));
+                return rr;
+            }
+            let got = answers.lock().unwrap().clone();
+            let mut counts = vec![0usize; n];
+            for g in &got {
+                match g.strip_prefix("200 t").and_then(|x| x.parse::<usize>().ok()) {
+                    Some(j) if j < n => counts[j] += 1,
+                    _ => {
+                        rr.violate("C09/R6", "balanced-request-not-relayed", format!("a concurrent request through proxy_handler was answered {:?}", g));
+                        return rr;
+                    }
+                }
+            }
+            let want: Vec<usize> = (0..n).map(|j| (0..k).filter(|p| p % n == j).count()).collect();
+            if counts != want || got.len() != k {
+                rr.violate("C09/R6", "round-robin-order-broken:concurrent-requests", format!("{} concurrent requests over {} targets: targets were used {:?} times, strict rotation gives {:?}", k, n, counts, want));
+            }
+            rr.shapes.push(fnv64(format!("balh:{}:{}", n, k).as_bytes()));
+            rr.sample = Some(json!({"mode": "balance-through-handler", "targets": n, "concurrent_requests": k, "uses_per_target": counts}));
+            return rr;
+        }
         let picks: Arc<Mutex<Vec<(u64, String)>>> = Arc::new(Mutex::new(Vec::new()));
         let (p2, t2, scn2) = (picks.clone(), targets.clone(), scn.clone());
         let outcome = sim::run(scn.sim.to_config(), move || {
